@@ -31,8 +31,11 @@ Lemma getl_setl_other l i j v : 0 <= i -> 0 <= j -> i <> j -> getl (setl l i v) 
 Proof. intros. unfold getl, setl. apply nth_upd_other. lia. Qed.
 Lemma setl_setl_same l i v w : setl (setl l i v) i w = setl l i w.
 Proof. unfold setl. generalize (Z.to_nat i). intro n. revert n. induction l; destruct n; cbn; auto. f_equal. apply IHl. Qed.
-Lemma setl_getl_id l i : setl l i (getl l i) = l \/ True.
-Proof. right; exact I. Qed.
+Lemma setl_getl_same l i : 0 <= i < Z.of_nat (length l) -> setl l i (getl l i) = l.
+Proof.
+  intros H. unfold setl, getl. assert (Hn : (Z.to_nat i < length l)%nat) by lia. revert Hn. generalize (Z.to_nat i).
+  clear H. induction l as [|a t IH]; intros [|n] Hn; cbn in *; try lia; [reflexivity|]. f_equal. apply IH. lia.
+Qed.
 
 (* ---- running primitives ---- *)
 Lemma run_get_sys i s : get_sys i s = Ok (getl (sys s) i) s.
